@@ -8,6 +8,7 @@ export CARGO_NET_OFFLINE=true
 mkdir -p .cache evidence replays
 tools/build_harness.sh || { echo "setup: harness build failed"; exit 1; }
 python3 tools/gen_coq.py || { echo "setup: gen_coq failed"; exit 1; }
+tools/rs2coq/run.sh || { echo "setup: rs2coq failed"; exit 1; }
 ( cd coq && coq_makefile -f _CoqProject -o Makefile >/dev/null && timeout 3000 make -j16 >../.cache/coq_make.log 2>&1 ) || { tail -40 .cache/coq_make.log; echo "setup: coq build failed"; exit 1; }
 tools/build_model.sh || { echo "setup: model extraction failed"; exit 1; }
 echo "setup: ok"
